@@ -156,6 +156,22 @@ def generate(repo):
         return len(copies) >= 1 and ".read()" not in rest
     item("scan_one_lock", True, scan_one_lock)
 
+    def id_alloc_locked():
+        _, body = find_fn(src, "put_durable", after=r"impl\s+SlabRouter\b")
+        lock = re.search(r"\.lock\(\)", body)
+        alloc = [m.start() for m in re.finditer(r"self\.index\.get_or_create\(", body)]
+        # entity ids are positional and replay re-allocates them in log order: the live allocation
+        # must happen under the WAL guard, i.e. in log order too
+        return lock is not None and all(a > lock.start() for a in alloc)
+    item("durable_id_alloc_locked", True, id_alloc_locked)
+
+    def bloom_add_rmw():
+        lib = strip_comments(read(repo, "tensor_store/src/lib.rs"))
+        _, body = find_fn(lib, "add", after=r"impl\s+BloomFilter\b")
+        # concurrent adds set bits of one word: it must be ONE atomic read-modify-write per bit
+        return re.search(r"\.fetch_or\(\s*1\s*<<\s*bit_offset", body) is not None and ".store(" not in body and "compare_exchange" not in body
+    item("bloom_add_fetch_or", True, bloom_add_rmw)
+
     def atomic():
         _, b1 = find_fn(src, "put_durable", after=r"impl\s+SlabRouter\b")
         _, b2 = find_fn(src, "delete_durable", after=r"impl\s+SlabRouter\b")
@@ -181,6 +197,10 @@ def generate(repo):
     text += "Definition gen_emb_locked : bool := %s.\n" % ("true" if out["emb_locked"] else "false")
     text += "(* MetadataSlab::scan (non-empty prefix) copies keys and values under ONE acquisition of the shard lock *)\n"
     text += "Definition gen_scan_one_lock : bool := %s.\n" % ("true" if out["scan_one_lock"] else "false")
+    text += "(* put_durable allocates the entity id of an embedding under the WAL guard (log order = allocation order) *)\n"
+    text += "Definition gen_durable_id_alloc_locked : bool := %s.\n" % ("true" if out["durable_id_alloc_locked"] else "false")
+    text += "(* BloomFilter::add sets each bit with one atomic fetch_or (no load + store) *)\n"
+    text += "Definition gen_bloom_add_fetch_or : bool := %s.\n" % ("true" if out["bloom_add_fetch_or"] else "false")
     text += "(* CacheRing::get compares the slot entry's key before returning its value *)\n"
     text += "Definition gen_cache_get_checks_key : bool := %s.\n" % ("true" if out["cache_get_checks_key"] else "false")
     text += "(* put_durable / delete_durable: the in-memory apply runs inside the WAL guard's scope *)\n"
